@@ -408,6 +408,13 @@ func (css *Consensus) LogPin(ctx context.Context, pin *api.Pin) error {
 	defer span.End()
 
 	if css.config.batchingEnabled() {
+		// A pin that cannot be serialized can never be added to a
+		// batch: it would be accepted here and dropped by the batch
+		// worker. Refuse it, as happens when not batching.
+		if _, err := pin.ProtoMarshal(); err != nil {
+			return err
+		}
+
 		select {
 		case css.batchItemCh <- batchItem{
 			ctx:   ctx,
